@@ -183,6 +183,11 @@ func c04Phase(c *vk.Ctx, r *rand.Rand, natTimeout time.Duration, expiry bool) bo
 	}
 	owner := map[string]int{} // outbound address -> client (for addresses that may be live now)
 	for ci, os := range perClient {
+		fam := "v4"
+		if clients[ci].Addr.IP.To4() == nil {
+			fam = "v6"
+		}
+		c.Eval(fmt.Sprintf("client|%s|shared-ip=%v|key-shared=%v|expiry=%v|datagrams=%s", fam, ci%3 == 0, ci%4 == 0, expiry, sizeBucket(len(os))))
 		// association epochs of this client from the recorder
 		as := w.rig.Rec.ByClient(clients[ci].Addr.String())
 		type epoch struct {
